@@ -17,6 +17,17 @@
 //	phaseMaintenance  (E2) BFS with state de-duplication over histories of depth <= 4 over
 //	                  {tokenize v/w, random tokenize v, detokenize, disable all / v, enable, remove
 //	                  all / disabled} using VisitMetadata with the callbacks of cmd/acra-tokens.
+//	phaseCLI          (E2) the same kind of histories with maintenance done by the real acra-tokens
+//	                  subcommands (cmd/acra-tokens/tokens: RegisterFlags, Parse, Execute on the BoltDB
+//	                  file): {disable, enable, remove --all, remove --only_disabled, remove --all
+//	                  --dry_run, status} x every set of at most 2 (thorough: also 3 and 4) of the options
+//	                  --accessed_after/--accessed_before/--created_after/--created_before x every
+//	                  option with its limit before / between / after the times of the stored records
+//	                  (408 operations; "age" = the records stored so far become old), breadth-first
+//	                  with state de-duplication from three root histories (empty store: 2 operations;
+//	                  old and fresh records side by side, the same all disabled: 1 operation; thorough
+//	                  one more), each history followed by the owner's probes. Space, oracle and the reason for worker processes: cli.go,
+//	                  cliworker.go.
 //	(phaseConcurrent  (E1) is added by the lead: see the tap in world.go.)
 //
 // Oracle (all phases): the token has the Go type and the shape of the value; the owner gets the
@@ -25,7 +36,9 @@
 // context never get one token — checked over the population of the execution and on the store
 // contents; out-of-range integers are rejected or handed back unchanged; all four store stacks
 // give the same observation vector; disabled tokens are not detokenized, removed ones are
-// unknown. Never a panic.
+// unknown; an acra-tokens command changes exactly the records its options select (within every
+// given date limit, and disabled for remove --only_disabled), so every other token stays
+// reversible for the owner and consistent. Never a panic.
 package main
 
 import (
@@ -603,7 +616,7 @@ func replay(r *ev.Run) {
 		fmt.Printf("replay oor %s %s: %s\n", c.Store, c.Text, obs)
 		r.Eval(1)
 		report(r, fs, c)
-	case "maint":
+	case "maint", "cli":
 		var c maintCfg
 		r.LoadReplay(&c)
 		o := runMaint(c)
@@ -622,6 +635,10 @@ func replay(r *ev.Run) {
 }
 
 func main() {
+	if os.Getenv("C10_CLI_WORKER") != "" {
+		cliWorkerMain() // executes histories with acra-tokens commands for the phase in cli.go
+		return
+	}
 	r := ev.New("C10", "model_checking")
 	if p := os.Getenv("C10_CPUPROFILE"); p != "" {
 		f, _ := os.Create(p)
@@ -643,21 +660,32 @@ func main() {
 		teardownWorld()
 		r.Finish()
 	}
-	phaseShapes(r)
-	phaseOutOfRange(r)
-	phaseMenus(r)
-	phaseMaintenance(r)
-	phaseConcurrent(r)
+	// C10_PHASES (debugging aid, e.g. "cli"): run only the named phases; such a run is not the check
+	only := os.Getenv("C10_PHASES")
+	for _, ph := range []struct {
+		name string
+		run  func(*ev.Run)
+	}{{"shapes", phaseShapes}, {"oor", phaseOutOfRange}, {"menus", phaseMenus}, {"maintenance", phaseMaintenance}, {"cli", phaseCLI}, {"concurrent", phaseConcurrent}} {
+		if only == "" || strings.Contains(","+only+",", ","+ph.name+",") {
+			ph.run(r)
+		}
+	}
+	if only != "" {
+		r.Capped("only the phases " + only + " were run (C10_PHASES)")
+	}
 	teardownWorld()
 	pprof.StopCPUProfile()
 
-	r.Rule("sequential: state = canonical store content (consistent records value->token and token records token->value per client context, tokens renamed in order) reached by one (type, values, call sequence, mode, entry point, draw menu) on one store stack; transition = one TokenStorage call or entry-point call; draw menus are enumerated completely up to 2 deviations from 'fresh' per execution (plus 'every draw of one call collides' and 'another instance tokenizes the same value after our lookup missed'); maintenance: BFS over operation histories up to depth 4, a history is extended only if it reached a store content (model state + orphan records) not seen before; distinct_nontrivial counts distinct (type, store stack, entry, mode, menu class / last operation, outcome) tuples")
+	r.Rule("sequential: state = canonical store content (consistent records value->token and token records token->value per client context, tokens renamed in order) reached by one (type, values, call sequence, mode, entry point, draw menu) on one store stack; transition = one TokenStorage call or entry-point call; draw menus are enumerated completely up to 2 deviations from 'fresh' per execution (plus 'every draw of one call collides' and 'another instance tokenizes the same value after our lookup missed'); maintenance: BFS over operation histories up to depth 4, a history is extended only if it reached a store content (model state + orphan records) not seen before; distinct_nontrivial counts distinct (type, store stack, entry, mode, menu class / last operation, outcome) tuples; acra-tokens histories: the operations are {tokenize v/w, random tokenize v, detokenize latest token of v/w, age} + 6 commands x every set of at most 2 date options (thorough: every set at the quick tier's depths, then one more operation with at most 2) x 3 limit positions per option (before every record time, between the aged and the fresh record times, after every record time); breadth-first from each root history to the depth recorded in cli_roots, a history is extended only if it reached a state (model state + orphan records + creation/access era and disabled flag of every stored record) not seen before from that root; every history runs on BoltDB with and without the encrypting wrapper in a worker process and ends with the owner detokenizing the latest tokens of v and w and tokenizing v and w consistently again; transition = one TokenStorage call, entry-point call or acra-tokens command; the last operation enters distinct_nontrivial as command[option names] without the limit positions")
 	r.Set("store_stacks", storeKinds)
 	r.Set("entry_points", []string{"Pseudoanonymizer.Anonymize/AnonymizeConsistently/Deanonymize", "TranslatorService.Tokenize/Detokenize", "TokenEncryptor.EncryptWithClientID->DataTokenizer.Tokenize", "TokenProcessor.OnColumn->DataTokenizer.Detokenize", "pgBoundValue(binary).GetData/SetData around DataTokenizer"})
 	r.Assume("Themis is replaced by the pure-Go stand-in /verif/shim/gothemis (only used by the encrypting wrapper)",
 		"BoltDB is opened like Acra does (bolt.Open(path, 0600, nil)) but with NoSync (durability is not part of the property); the file is emptied between executions by deleting the root bucket",
 		"token draws are identified as the crypto/rand reads made during a tokenize call outside TokenStorage calls; forced draws encode the wanted token for math/rand.Rand.Intn/Int31n as used by pseudonymization/random.go",
 		"'limited to the records of v' is expressed through the stored-data length handed to the VisitMetadata callback (acra-tokens itself limits by timestamps, which have one-second resolution)",
-		"the Redis store is not exercised (no server available); concurrency is the subject of a separate phase")
+		"the Redis store is not exercised (no server available); concurrency is the subject of a separate phase",
+		"acra-tokens commands: the subcommands are driven through RegisterFlags/Parse/Execute in process (main()'s os.Args dispatch is not), with --token_db on a copy of the execution's BoltDB file and the execution continuing on a copy of the file the command left (the subcommands never close the database they open); tokens.DefaultConfigPath is empty (no configuration file), logrus' ExitFunc panics so that a log.Fatal of a subcommand is a failed command; BoltDB files are on /dev/shm when it exists and VERIF_SCRATCH is not set (the commands commit synchronously)",
+		"record times come from the wall clock of the stores (time.Now in TokenStorage.Save/Get); 'age' rewrites creation and access time of every stored record to 2010-01-01 with Acra's EmbedMetadata/ExtractMetadata (the environment move 'time passes'); the limit positions 2000 / 2015-06-01 / 2100-01-01 assume the wall clock of the machine is between 2015-06-01 and 2099-12-30 (checked on every record time read); no limit is closer than years to a record time, so the treatment of a limit equal to a record time is not examined",
+		"which records a command must change is computed from the option help texts and the record metadata read with Stat right before the command (access-time updates by Get are Acra's, not modelled); the harness's own inspection reads are made with the access-time granularity raised through SetAccessTimeGranularity so that they do not move access times; the counters printed by status are part of the observation vector (compared between the two stacks), no oracle is put on them")
 	r.Finish()
 }
